@@ -161,6 +161,10 @@ pub fn eval_op(
             let right = input.iter().filter(|r| r.v.rem_euclid(*m2) != 1).count();
             vec![f_zip_anon(); left.min(right)]
         }
+        UOp::SplitJoin { kind, m, .. } => {
+            let right: Vec<Rec> = input.iter().cloned().map(|r| f_rekey(r, *m)).collect();
+            join(&input, &right, *kind)
+        }
         UOp::Replay { rounds, body, stop_m, stop_r } => {
             let mut st = LState::default();
             let mut round = 0usize;
